@@ -74,26 +74,47 @@ def harness_bin(be):
     return os.path.join(CACHE, f"target-{be}", "debug", "harness")
 
 
-def build_harness(backends=("f64", "dec")):
-    """cargo build of the harness in the requested back-ends (in parallel)"""
+ALL_GROUPS = ("g_derived", "g_rate", "g_tconv", "g_ser", "temp")
+
+
+def _cargo_harness(be, groups, astro=True):
+    feats = (["astro"] if (be == "f64" and astro) else []) + (["dec"] if be == "dec" else []) + ["serde"] + list(groups)
+    env = dict(ENV, CARGO_TARGET_DIR=os.path.join(CACHE, f"target-{be}"), RUSTFLAGS="-Awarnings")
+    return subprocess.Popen(["cargo", "build", "--features", ",".join(feats), "--message-format=short"],
+                            cwd=os.path.join(VERIF, "harness"), env=env, stdout=subprocess.PIPE,
+                            stderr=subprocess.STDOUT, text=True)
+
+
+def build_harness(backends=("f64", "dec"), needed=ALL_GROUPS):
+    """cargo build of the harness in the requested back-ends (in parallel).  First with every
+    operation group; if that does not compile, with only the groups the property at hand needs,
+    so that a change breaking e.g. the serde derives does not stop the checks of other
+    properties.  Returns the list of groups that had to be dropped."""
     lock = os.path.join(VERIF, "harness/Cargo.lock")
     if not os.path.exists(lock):
         import shutil
         shutil.copy(os.path.join(REPO, "Cargo.lock"), lock)
-    procs = []
-    for be in backends:
-        feats = "astro,serde,temp" if be == "f64" else "dec,serde,temp"
-        env = dict(ENV, CARGO_TARGET_DIR=os.path.join(CACHE, f"target-{be}"), RUSTFLAGS="-Awarnings")
-        procs.append((be, subprocess.Popen(
-            ["cargo", "build", "--features", feats, "--message-format=short"],
-            cwd=os.path.join(VERIF, "harness"), env=env, stdout=subprocess.PIPE, stderr=subprocess.STDOUT, text=True)))
-    errs = []
+    procs = [(be, _cargo_harness(be, ALL_GROUPS)) for be in backends]
+    errs = {}
     for be, p in procs:
         out, _ = p.communicate(timeout=3600)
         if p.returncode != 0:
-            errs.append((be, out))
-    if errs:
-        raise Broken("harness.build." + errs[0][0], errs[0][1][-6000:])
+            errs[be] = out
+    if not errs:
+        return []
+    if set(needed) == set(ALL_GROUPS):
+        be = sorted(errs)[0]
+        raise Broken("harness.build." + be, errs[be][-6000:])
+    procs = [(be, _cargo_harness(be, needed)) for be in backends]
+    errs2 = {}
+    for be, p in procs:
+        out, _ = p.communicate(timeout=3600)
+        if p.returncode != 0:
+            errs2[be] = out
+    if errs2:
+        be = sorted(errs2)[0]
+        raise Broken("harness.build." + be, errs2[be][-6000:])
+    return [g for g in ALL_GROUPS if g not in needed]
 
 
 def run_ops(be, lines, tag):
@@ -122,7 +143,7 @@ def run_ops(be, lines, tag):
     return res
 
 
-def prepare(backends=("f64", "dec")):
+def prepare(backends=("f64", "dec"), needed=ALL_GROUPS):
     """everything up to runnable binaries; returns dict of timings"""
     t = {}
     t0 = time.time()
@@ -134,6 +155,6 @@ def prepare(backends=("f64", "dec")):
     dump()
     gen_harness()
     t0 = time.time()
-    build_harness(backends)
+    t["dropped_groups"] = build_harness(backends, needed)
     t["harness"] = time.time() - t0
     return t
